@@ -169,6 +169,11 @@ def w_entrypoints(arg):
 
 # --------------------------------------------------------------------------------- parent side
 UNTIDY = [
+    # async methods, class attributes bound by tuple / list / starred unpacking, annotated and augmented class attributes, nested definitions
+    "import asyncio\n\n\nclass JobRunner:\n    RED, GREEN, blueValue = 1, 2, 3\n    lowest, *restVals = 1, 2, 3\n    [firstVal, secondVal] = 4, 5\n    (innerA, (innerB, innerC)) = 6, (7, 8)\n"
+    "    counterValue: int = 0\n    counterValue += 1\n\n    async def fromConfig(self, cfg):\n        return cfg\n\n    async def runAll(self):\n        await asyncio.sleep(0)\n\n"
+    "    @classmethod\n    async def shutDown(cls):\n        return 1\n\n    @property\n    def sizeHint(self):\n        return 3\n\n    @staticmethod\n    async def helperTask():\n        return 2\n\n\n"
+    "async def topLevelTask():\n    return JobRunner\n\n\nAlpha, (Beta, *gammaRest) = 1, (2, 3, 4)\n[deltaOne, deltaTwo] = 5, 6\nfor loopVar in range(1):\n    pass\nwith open(__file__) as handleVar:\n    pass\n",
     "import os\nfrom typing import List\n\nunusedValue = 1\n_private_thing = 2\nCamelVar = 3\n_ = os.sep\nx, (y, *z) = 1, (2, 3)\ncounter: int = 0\ncounter += 1\n\n\ndef unusedFunction(a):\n    return a\n\n\nasync def unusedAsync():\n    return 1\n\n\ndef unusedFunction2(b):\n    return b\n\n\nclass lowercase_class:\n    classAttr = 1\n    _hidden = 2\n\n    def setUp(self):\n        pass\n\n    def NotUsingSelf(self):\n        return 1\n\n    @staticmethod\n    def staticOne():\n        return 2\n\n    class Inner:\n        pass\n",
     "class HTTPStatus:\n    OK = 200\n    NOT_FOUND = 404\n\n    def getMandatoryRelease(self):\n        return self.OK\n\n    def phrase(self):\n        return 'x'\n\n\nALL_CAPS = HTTPStatus.OK\nmixedCase = HTTPStatus().getMandatoryRelease()\n",
     "def f(x):\n    return x + 1\n\n\ndef g(y):\n    return y + 1\n\n\ndef h(z):\n    return z + 1\n\n\nresult = f(1)\nif result:\n    conditional_name = 1\nfor loop_var in range(2):\n    pass\nwith open(__file__) as with_target:\n    pass\n",
